@@ -94,8 +94,13 @@ func ZZ_C07_Step() {
 	if hasReq {
 		mscc.RequestedServiceUnit = &charging_datatype.RequestedServiceUnit{CCTotalOctets: datatype.Unsigned64(amount)}
 	}
+	// the two groups carry independent amounts (an interim update reports usage
+	// and asks for more in one request): reservation and refund act on the
+	// requested amount, the termination debit on the used amount
+	usedAmount := vx.Uint64("usedAmount")
+	vx.Assume(usedAmount < 1<<63)
 	if hasUsed {
-		mscc.UsedServiceUnit = &charging_datatype.UsedServiceUnit{CCTotalOctets: datatype.Unsigned64(amount)}
+		mscc.UsedServiceUnit = &charging_datatype.UsedServiceUnit{CCTotalOctets: datatype.Unsigned64(usedAmount)}
 	}
 	ccr.MultipleServicesCreditControl = mscc
 	isReserve := ccr.RequestedAction == charging_datatype.DIRECT_DEBITING &&
@@ -164,8 +169,9 @@ func ZZ_C07_Step() {
 		vx.Assume(old <= (1<<63-1)-amt)
 		vx.Assert("refund raises the balance by exactly the amount", now == old+amt)
 	case isFinalDebit:
-		vx.Assume(old >= -(1<<63-1)+amt)
-		vx.Assert("termination debit lowers the balance by exactly the amount", now == old-amt)
+		uamt := int64(usedAmount)
+		vx.Assume(old >= -(1<<63-1)+uamt)
+		vx.Assert("termination debit lowers the balance by exactly the used amount", now == old-uamt)
 	default:
 		vx.Assert("other actions/types leave the balance unchanged", now == old)
 	}
